@@ -309,6 +309,7 @@ class Molecule(BigSMILESbase):
                             G.add_edge(graph_bd, other_bd, trans_prob=trans_prob)
 
                 if isinstance(element, Stochastic) and isinstance(next_element, SmilesToken):
+                    total_weight = 0
                     for other_bd in next_element.bond_descriptors:
                         if (
                             graph_bd.is_compatible(other_bd)
@@ -316,7 +317,17 @@ class Molecule(BigSMILESbase):
                             and bond_descriptors[graph_bd] in element.repeat_tokens
                             and other_bd.weight > 0
                         ):
-                            G.add_edge(graph_bd, other_bd, trans_prob=1.0)
+                            total_weight += other_bd.weight
+                    for other_bd in next_element.bond_descriptors:
+                        if (
+                            graph_bd.is_compatible(other_bd)
+                            and graph_bd.is_compatible(element.right_terminal)
+                            and bond_descriptors[graph_bd] in element.repeat_tokens
+                            and other_bd.weight > 0
+                        ):
+                            G.add_edge(
+                                graph_bd, other_bd, trans_prob=other_bd.weight / total_weight
+                            )
 
                 if isinstance(element, Stochastic) and isinstance(next_element, Stochastic):
                     total_weight = 0
